@@ -993,9 +993,20 @@ void strip_quote_markers_from_line(token * line, const char * source) {
 
 			case MARKER_BLOCKQUOTE:
 				had_marker = true;
+				prune_first_child_from_line(line);
+				break;
 
 			case NON_INDENT_SPACE:
-				prune_first_child_from_line(line);
+				if (had_marker && (source[line->child->start] == ' ')) {
+					// Only one space belongs to the marker -- the rest is
+					// indentation of the quoted line (it matters in code)
+					line->child->start++;
+					line->child->len--;
+					t = line->child;
+				} else {
+					prune_first_child_from_line(line);
+				}
+
 				break;
 		}
 	}
